@@ -1594,24 +1594,48 @@ fn run_icmp6_validate(part: u64, ctx: &mut Ctx) {
                 _ => (i + 1) as u8,
             }));
             let (s, d) = A6[(hi + li / 3) % 3];
-            let msg0 = msg.clone();
-            ctx.case(
-                None,
-                || CaseDesc { shape: "icmpv6:validator-sweep".into(), text: format!("Icmpv6Slice::is_checksum_valid({}, {}) on message {} with every value 0..=0xffff in the checksum field (bytes 2..4)", hex(&s), hex(&d), hex(&msg0)), rank: *l as u64 },
-                |case| {
-                    let mut pk = Pk::new(case);
-                    let what = || "validator sweep".to_string();
-                    for c in 0..=0xffffu16 {
-                        msg[2..4].copy_from_slice(&c.to_be_bytes());
-                        check_valid6(&mut pk, &msg, s, d, &what);
+            // variant 1: bytes 4..6 are chosen such that everything except the checksum field already sums to
+            // 0xffff (one's complement zero): then BOTH representations 0x0000 and 0xffff in the checksum field make the
+            // complete sum fold to 0xffff and both have to be accepted
+            for variant in 0..2 {
+                let mut msg = msg.clone();
+                if variant == 1 {
+                    msg[2] = 0;
+                    msg[3] = 0;
+                    let mut found = false;
+                    for w in 0..=0xffffu16 {
+                        msg[4..6].copy_from_slice(&w.to_be_bytes());
+                        if ref_sum_parts(&[&pseudo6(s, d, P_ICMPV6, msg.len()), &msg]) == 0xffff {
+                            found = true;
+                            break;
+                        }
                     }
-                    if pk.accept == 0 || pk.accept > 2 {
-                        pk.machinery("validator-sweep", format!("reference accepts {} of 65536 checksum values (must be 1 or 2)", pk.accept));
+                    if !found {
+                        continue;
                     }
-                    pk.case.reach("validator-sweep");
-                    pk.finish(format!("icmpv6:validator-sweep:accepted={}", pk_accept_class(*l)));
-                },
-            );
+                }
+                let msg0 = msg.clone();
+                ctx.case(
+                    None,
+                    || CaseDesc { shape: if variant == 0 { "icmpv6:validator-sweep".into() } else { "icmpv6:validator-sweep:rest-sums-to-ffff".into() }, text: format!("Icmpv6Slice::is_checksum_valid({}, {}) on message {} with every value 0..=0xffff in the checksum field (bytes 2..4)", hex(&s), hex(&d), hex(&msg0)), rank: *l as u64 },
+                    |case| {
+                        let mut pk = Pk::new(case);
+                        let what = || "validator sweep".to_string();
+                        for c in 0..=0xffffu16 {
+                            msg[2..4].copy_from_slice(&c.to_be_bytes());
+                            check_valid6(&mut pk, &msg, s, d, &what);
+                        }
+                        if pk.accept == 0 || pk.accept > 2 || (variant == 1 && pk.accept != 2) {
+                            pk.machinery("validator-sweep", format!("reference accepts {} of 65536 checksum values (must be 1 or 2; 2 for the constructed messages)", pk.accept));
+                        }
+                        pk.case.reach("validator-sweep");
+                        if pk.accept == 2 {
+                            pk.case.reach("validator-sweep-two-valid-representations");
+                        }
+                        pk.finish(format!("icmpv6:validator-sweep:accepted={}:v{}", pk_accept_class(*l), variant));
+                    },
+                );
+            }
         }
     }
 }
@@ -1898,7 +1922,7 @@ impl Check for C09 {
     fn rule(&self, tier: Tier) -> String {
         format!(
             "alphabet/bound: (a) helpers checksum::u32_16bit_word, checksum::u64_16bit_word (module functions) and checksum::Sum16BitWords on ALL byte strings of length 0..={} over {{00,01,7f,80,ff}} and on lengths 10..={} of the patterns zeros, ff.., ascending, 00ff.., ff00.., single 01 at every position; per string: add_slice of the whole string at buffer offsets 0..7 and flush against a guard page; every 3-way split at even offsets k1<=k2 (2-way splits = one empty chunk); greedy add_2bytes/add_4bytes/add_8bytes/add_16bytes decompositions (as far as the implementation has them) with the odd tail via add_slice or add_2bytes([b,0]); one leading add_Nbytes then add_slice; start accumulators u32 {{1,ffff,1_0000,MAX-1,MAX}} / u64 {{1,ffff,1_0000,ffff_ffff,1_0000_0000,MAX-1,MAX}} (Sum16BitWords: the same state reached through add_8bytes) x whole / every 2-way even split / piecewise; both ones_complement and ones_complement_with_no_zero are read. \
-             (b) protocol: Ipv4Header (3-value alphabets of every field x 3 address pairs x 6 option blocks; every value of each 16-bit word x 3 backgrounds) through calc_header_checksum/write/to_bytes/write_raw; UDP (6 ports^2; all 65536 source ports x 6 backgrounds; constructed computed-0 messages) through with_ipv4/6_checksum, calc_checksum_ipv4/6(_raw), TransportHeader::update_checksum_ipv4/6, PacketBuilder (plain, behind ethernet2, IPv4 with options); TCP (3-value alphabets of every field x 4 option blocks = 8748 headers) through TcpHeader/TcpHeaderSlice::calc_checksum_ipv4/6(_raw), TcpSlice::calc_checksum_ipv4/6, TransportHeader, PacketBuilder; ICMPv4 / ICMPv6 (every type variant the decoders produce from type x code x 3 rest-of-header patterns, all 256 type bytes) through Icmpv4Type::calc_checksum, Icmpv4Header::with_checksum/update_checksum, Icmpv6Type::calc_checksum/to_header, Icmpv6Header::with_checksum/update_checksum, TransportHeader, PacketBuilder incl. raw/echo short cuts, Icmpv6Slice::is_checksum_valid; IGMP (all type bytes, v1/v2/v3 layouts) through IgmpHeader::calc_checksum/with_checksum; everywhere x payload lengths {:?} x {{zeros, ff, ascending}} x address pairs {{zeros, ones, mixed}} for IPv4 and IPv6; validator: all 65536 checksum-field values of 52 ICMPv6 messages; large payloads: UDP/TCP-over-IPv4 at the 16-bit limit, TCP/ICMPv6 over IPv6 up to 131073 bytes (32-bit pseudo header length), helpers up to 262144 bytes. UdpHeaderSlice/UdpSlice/Icmpv4Slice have no checksum computing API. \
+             (b) protocol: Ipv4Header (3-value alphabets of every field x 3 address pairs x 6 option blocks; every value of each 16-bit word x 3 backgrounds) through calc_header_checksum/write/to_bytes/write_raw; UDP (6 ports^2; all 65536 source ports x 6 backgrounds; constructed computed-0 messages) through with_ipv4/6_checksum, calc_checksum_ipv4/6(_raw), TransportHeader::update_checksum_ipv4/6, PacketBuilder (plain, behind ethernet2, IPv4 with options); TCP (3-value alphabets of every field x 4 option blocks = 8748 headers) through TcpHeader/TcpHeaderSlice::calc_checksum_ipv4/6(_raw), TcpSlice::calc_checksum_ipv4/6, TransportHeader, PacketBuilder; ICMPv4 / ICMPv6 (every type variant the decoders produce from type x code x 3 rest-of-header patterns, all 256 type bytes) through Icmpv4Type::calc_checksum, Icmpv4Header::with_checksum/update_checksum, Icmpv6Type::calc_checksum/to_header, Icmpv6Header::with_checksum/update_checksum, TransportHeader, PacketBuilder incl. raw/echo short cuts, Icmpv6Slice::is_checksum_valid; IGMP (all type bytes, v1/v2/v3 layouts) through IgmpHeader::calc_checksum/with_checksum; everywhere x payload lengths {:?} x {{zeros, ff, ascending}} x address pairs {{zeros, ones, mixed}} for IPv4 and IPv6; validator: all 65536 checksum-field values of 52 ICMPv6 messages and of 52 constructed ones whose remaining words already sum to 0xffff (so that 0x0000 and 0xffff are both valid); large payloads: UDP/TCP-over-IPv4 at the 16-bit limit, TCP/ICMPv6 over IPv6 up to 131073 bytes (32-bit pseudo header length), helpers up to 262144 bytes. UdpHeaderSlice/UdpSlice/Icmpv4Slice have no checksum computing API. \
              oracle: independent RFC 1071 reference (big-endian 16-bit words in a u128, odd byte zero padded, folded, complemented) over pseudo header (RFC 768/793/8200 §8.1/4443 §2.3, literal protocol numbers 17/6/58) ‖ header with zeroed checksum field ‖ payload; helpers: final ones_complement (read in wire order) == reference of the data, for a start accumulator S == reference of S.to_ne_bytes() ‖ data; UDP computed 0 -> 0xffff; is_checksum_valid == (complete sum folds to 0xffff); builder output is checked from the emitted bytes alone (IPv4 header checksum and transport checksum). \
              a state = one (implementation, string, call chain) at the helper level / one (API, input) pair at the protocol level, all distinct by construction; non-trivial = the summed data contains a non-zero byte (helpers), every protocol state (pseudo header / type bytes are never all zero).",
             a1_max_len(tier),
@@ -1941,6 +1965,7 @@ impl Check for C09 {
             "validator-accept",
             "validator-reject",
             "validator-sweep",
+            "validator-sweep-two-valid-representations",
             "large-helper",
             "large-protocol",
         ]
